@@ -225,7 +225,16 @@ def check_retirement_walk(ctx):
                       "FeoxStore::update_ttl", "FeoxStore::insert_if_absent"], floor=3)
 
 
+def check_clock(ctx):
+    """an accepted explicit timestamp is folded into the key's clock shard for sure (compare-exchange retried until the clock
+    has reached it): otherwise later automatic operations on the key draw older timestamps and are refused without any
+    concurrent modification (shared with C12.next)"""
+    from rules import C12
+    C12.check_next(ctx, "C07.clock")
+
+
 def check(ctx):
+    check_clock(ctx)
     check_retirement_walk(ctx)
     check_gate(ctx)
     check_identity(ctx)
